@@ -12,6 +12,7 @@ out=["# Independently seeded changes — which check catches which","",
 "(30 s search budget) against the worktree (`VERIF_REPO`). `sim/tools/seeded_all.sh` does that for every stored change. Results of the last",
 "run (recorded in `<name>/meta.json`; a patch that no longer applied cleanly after later `fix:` commits was rebased with `patch --fuzz` and stored):",""]
 tot=caught=0
+neutralised=[]
 for suf,title in waves.items():
     names=sorted(n for n in os.listdir(root) if os.path.isdir(root+'/'+n) and n[3:]==suf)
     if not names: continue
@@ -21,11 +22,16 @@ for suf,title in waves.items():
         except Exception: continue
         cr='; '.join(f"{c['check']}: exit {c['exit']} `{c['reported'].replace('violation ','')}`" if c['reported'] else f"{c['check']}: exit {c['exit']}" for c in m['checks_run'])
         c=m['confirmed']
-        tot+=1
-        if any(x['exit']==1 for x in m['checks_run']): caught+=1
+        neutral = (not any(x['exit']==1 for x in m['checks_run'])) and c['demo_with_change'].startswith('ok')
+        if neutral:
+            neutralised.append(n)
+            cr += ' — **neutralised**: the demonstration passes with the change applied (a later `fix:` commit took the changed code out of the path); not counted'
+        else:
+            tot+=1
+            if any(x['exit']==1 for x in m['checks_run']): caught+=1
         out.append(f"| {n} | {summ.get(n,'see README.md')} | {cr} | {c['existing_suite_with_change'][:40]} / {c['demo_with_change'][:30]} / {c['demo_on_unchanged_sources'][:30]} |")
     out.append("")
-out.insert(8,f"**{caught} of {tot} changes are reported by at least one registered check.**\n")
+out.insert(8,f"**{caught} of {tot} changes that still break their property on the final tree are reported by at least one registered check**" + (f" ({len(neutralised)} more, {', '.join(neutralised)}, were neutralised by later fixes).\n" if neutralised else ".\n"))
 if notes:
     out+=["## What was missed at first, and what was changed in the machinery",""]
     for k in sorted(notes): out.append(f"* **{k}** — {notes[k]}")
